@@ -12,6 +12,8 @@ from vf.rigs import ACK, UNACK
 from vf.symex import SymBool, SymInt, _z, sand
 from vf.world import ZERO8, C, World, sym_len
 
+RECEIVING_STEPS = ("RECEIVING_FILE_DATA", "SENDING_EOF_ACK_PDU", "WAITING_FOR_MISSING_DATA",
+                   "RECV_FILE_DATA_WITH_CHECK_LIMIT_HANDLING")
 MUTATIONS = ("write", "create", "truncate", "delete", "rename", "replace", "mkdir", "rmdir", "rejected")
 RESOLVED = "/dst/file.bin"
 
@@ -105,6 +107,12 @@ def harness(ctx, N, mode, shape):
         segs = [e for e in o.ind if e[0] == "segment_recv"]
         if ev[0] == "FD":
             ctx.prop("at_most_one_segment_indication", len(segs) <= 1)
+            if o.exc is None and m.md_seen and o.step0.name in RECEIVING_STEPS and o.tid0 is not None \
+                    and o.step1.name in RECEIVING_STEPS and not any(e[0] == "finished" for e in o.ind) and not o.faults:
+                # a File Data PDU handed to a handler that is (and stays) receiving this file is accepted (or
+                # refused with an exception) - it is not silently discarded
+                ctx.prop("file_data_not_silently_dropped", len(segs) == 1,
+                         lambda: {"sig": f"File Data PDU delivered in step {o.step0.name} left no trace"})
             if segs:
                 ctx.covered("file_data_accepted")
                 ctx.prop("accepted_only_after_metadata", m.md_seen)
